@@ -9,7 +9,8 @@ ID = 'C16'
 FUNCTIONS = ['core.MoneyRange', 'core.CheckTransaction', 'core.CheckBlockHeader', 'core.CheckProofOfWork', 'core.GetLegacySigOpCount',
              'script.CScript.GetSigOpCount', 'core.CheckBlock', 'core.CBlock.get_witness_commitment_index', 'core.CTransaction.is_coinbase',
              'core.CBlock.stream_deserialize (merkle trees)']
-ASSUMPTIONS = ['SHA-256 uninterpreted (merkle roots / commitments are offered to the library as reference value + symbolic delta, so that '
+ASSUMPTIONS = ['block harness: double-SHA256 is collision-free among the hash applications of a path (added as constraints)',
+               'SHA-256 uninterpreted (merkle roots / commitments are offered to the library as reference value + symbolic delta, so that '
                'matching and non-matching values are both reachable and replay reproduces)',
                'witness commitment rule = BIP141 (last output >= 38 bytes with the 6-byte header); commitment scripts longer than 39 bytes are outside the shapes']
 STUBS = ['hashlib (UF)', 'struct', 'io.BytesIO', 'time.time (not reached: cur_time is always passed)']
@@ -48,11 +49,14 @@ def h_tx(ctx, chain, sig, spk, nullable):
         ctx.check(isinstance(e, C.ValidationError), 'tx: rejection is a validation error')
 
 
-def h_tx_big(ctx, over):
-    """stripped size exactly at / one byte over the limit (concrete filler)"""
+def h_tx_big(ctx, over, witness=False):
+    """stripped size exactly at / one byte over the limit (concrete filler); witness=True: a small stripped
+    transaction whose witness alone exceeds the limit (the rule is on the stripped size)"""
     C = ctx.core
     n = 1000000 - 60 - 1 + (1 if over else 0)
-    f = dict(nVersion=1, nLockTime=0, wit=None,
+    if witness:
+        n = 1
+    f = dict(nVersion=1, nLockTime=0, wit=[[ctx.B(bytes(1000001))]] if witness else None,
              vin=[dict(hash=ctx.bytes('h', 32), n=ctx.int('n', 0, 0xfffffffe), scriptSig=ctx.B(b''), nSequence=0)],
              vout=[dict(nValue=ctx.int('v', 0, MAX_MONEY), scriptPubKey=ctx.B(bytes([0x6a]) * n))])
     tx = K.build_tx(ctx, f)
@@ -76,6 +80,7 @@ def _coinbase_fields(ctx, pre, siglen, spks, wit):
 def h_block(ctx, chain, shape):
     """shape: dict(cb_sig, cb_spk=[...], cb_wit, txs=[tx shapes], commit: none|last|notlast|short|long, sigops: None|int, pow: bool)"""
     ctx.select_chain(chain)
+    ctx.set_state('collision_free', True)
     C = ctx.core
     hf = K.mk_header_fields(ctx)
     commit = shape.get('commit', 'none')
@@ -182,6 +187,7 @@ def instances(tier):
     out.append(dict(h='tx', p=dict(chain='testnet', sig=[2, 0, 0], spk=[0, 0], nullable=True)))
     out.append(dict(h='tx_big', p=dict(over=False)))
     out.append(dict(h='tx_big', p=dict(over=True)))
+    out.append(dict(h='tx_big', p=dict(over=False, witness=True)))
     out.append(dict(h='empty_block'))
     # CheckBlock
     t1 = dict(sig=[1], spk=[1], wit=None)
@@ -215,6 +221,7 @@ def instances(tier):
         dict(cb_sig=2, cb_spk=[0], cb_wit=[[32, 1]], txs=[tw], commit='last'),
         dict(cb_sig=2, cb_spk=[0], cb_wit=nonce32, txs=[], commit='last'),
         dict(cb_sig=2, cb_spk=[0], cb_wit=nonce32, txs=[t1, tw], commit='last'),
+        dict(cb_sig=2, cb_spk=[0], cb_wit=nonce32, txs=[tw, tw], commit='last'),
     ]
     if tier != 'quick':
         shapes.append(dict(cb_sig=2, cb_spk=[0], sigops=19980, txs=[dict(sig=[1], spk=[2], wit=None)]))
